@@ -190,6 +190,10 @@ func gcScenariosC05(c *Ctx) []gcScenario {
 					Subs: []gcSub{{Name: "s1", Topic: "t1", Behav: b}, {Name: "s2", Topic: "t1", Behav: "ack"}},
 					Pubs: []gcPub{{Name: "p1", Topic: "t1", N: 3}, {Name: "p2", Topic: "t1", N: 2}}})
 			}
+			// the context of the PUBLISHED message is of no concern to the Pub/Sub: a blocking Publish waits for the acks all the same
+			scs = append(scs, gcScenario{Class: "blocking-dead-publish-ctx/" + gcCfgName(per, true, buf), Persistent: per, Blocking: true, Buffer: buf,
+				Subs: []gcSub{{Name: "s1", Topic: "t1", Behav: "slow"}, {Name: "s2", Topic: "t1", Behav: "nack1"}},
+				Pubs: []gcPub{{Name: "p1", Topic: "t1", N: 3, DeadCtx: true}, {Name: "p2", Topic: "t1", N: 2, Batch: true, DeadCtx: true}}})
 			// one blocking Publish call with several messages: handed over one after the other
 			for _, b := range []string{"ack", "nack1", "slow"} {
 				scs = append(scs, gcScenario{Class: "blocking-batch/" + gcCfgName(per, true, buf), Persistent: per, Blocking: true, Buffer: buf,
